@@ -46,7 +46,10 @@ def classify_read(file_obj):
     try:
         json.dump(file_obj, open(fn, "w"))
         try:
-            cs, names = read_contracts_from_file(fn)
+            import contextlib
+            import io
+            with contextlib.redirect_stdout(io.StringIO()):      # validate_contract_dict prints the offending entry
+                cs, names = read_contracts_from_file(fn)
             return "ok", cs
         except ContractFormatError:
             return "ContractFormatError", None
@@ -77,7 +80,7 @@ def adversarial(rng):
     """(name, operands, thunk) with adversarial shapes"""
     vs = gen.VARS[:rng.randint(1, 4)]
     p = gen.rand_point(rng, vs)
-    kind = rng.choice(["empty_lists", "single_var", "unbounded_ctx", "more_vars_than_rows", "cancelling", "plain", "infeasible"])
+    kind = rng.choice(["empty_lists", "single_var", "unbounded_ctx", "more_vars_than_rows", "cancelling", "plain", "infeasible", "chain", "chain"])
     def terms(n, pool=None, pt=p):
         return [gen.rand_term(rng, pool or vs, "dyadic", point=pt) for _ in range(n)]
     if kind == "empty_lists":
@@ -99,6 +102,14 @@ def adversarial(rng):
     tl, cl = gen.mktl(ts), gen.mktl(ctx)
     elim = [Var(v) for v in rng.sample(vs, rng.randint(1, len(vs)))]
     order = rng.choice([[1], [2], [3], [4], [5], [1, 2, 3, 4, 5], [5, 4, 3, 2, 1]])
+    if kind == "chain":
+        # chains of two-variable rows through eliminated variables that end in a bound or dead-end (tactic-4 recursion)
+        import props.c04 as c04
+        ts, ctx, names, order = c04.chain_case(rng, rng.random() < 0.7)
+        tl, cl = gen.mktl(ts), gen.mktl(ctx)
+        elim = [Var(v) for v in names]
+        vs = list(dict.fromkeys(v for t in ts + ctx for v in t[0]))
+        p = gen.rand_point(rng, vs)
     sp = rng.random() < 0.5
     beh = {Var(v): float(p[v]) for v in vs if rng.random() < 0.8}
     ops = [
@@ -176,6 +187,14 @@ def check(ctx):
         wiring, c1, c2 = pc.gen_pair(rng)
         if rng.random() < 0.3:
             c2["o"] = c2["o"] + c1["o"][:1]           # shared outputs
+        elif rng.random() < 0.25:
+            # producer whose guarantees chain its outputs together; consumer assumes something about the head of the chain
+            import props.c04 as c04
+            ts, rows, names, _ = c04.chain_case(rng, True)
+            kept = [v for v in ts[0][0] if v not in names][0]
+            wiring = "chain"
+            c1 = {"i": [], "o": list(names), "a": [], "g": [t for t in rows if all(v in names for v in t[0])]}
+            c2 = {"i": [kept, names[0]], "o": ["out"], "a": list(ts), "g": [({"out": F(1), kept: F(-1)}, F(0))]}
         try:
             k1, k2 = gen.mkcontract(c1), gen.mkcontract(c2)
         except Exception:
